@@ -362,5 +362,13 @@ func main() {
 	R.Class(cfg+"/alphabet scalars x 4 paths", int64(len(sc)))
 	R.Bound("paths", paths)
 	R.Expect(cfg+"/single-byte scalars (32 positions x 256 values) x 4 paths", cfg+"/table entries compared (8160 huge + 480 odd)")
+	// cold start: each path as the FIRST library operation of a fresh process (nothing has touched the tables before)
+	if os.Getenv("VERIF_RUN") == "" || os.Getenv("VERIF_RUN") == "asm" || os.Getenv("VERIF_RUN") == "purego" {
+		for path := range paths {
+			for _, s := range []*big.Int{big.NewInt(0x2f), new(big.Int).Lsh(big.NewInt(0xa7), 8*17), new(big.Int).Sub(ref.N, big.NewInt(2))} {
+				R.Cold(fmt.Sprintf("basemul/%s", paths[path]), "base", mc.D{"s": mc.HexBig(s), "path": path})
+			}
+		}
+	}
 	R.Finish()
 }
